@@ -194,14 +194,16 @@ func (g *rgen) fill(t reflect.Type, depth int) (reflect.Value, string) {
 	case reflect.Uintptr:
 		return v, "uns:uintptr"
 	case reflect.Float32, reflect.Float64:
-		f := []float64{0, 1.5, -2, math.Inf(1), 1e10, 0.1}[rng.Intn(6)]
+		f := []float64{0, 1.5, -2, math.Inf(1), 1e10, 0.1, math.Inf(-1), math.NaN(), math.Copysign(0, -1), 5e-324, 1e21, 123456789}[rng.Intn(12)]
 		v.SetFloat(f)
 		return v, "D" + f64hex(v.Float())
 	case reflect.Complex64, reflect.Complex128:
 		return v, "uns:" + t.Kind().String()
 	case reflect.String:
 		ss := []string{"", "a", "hé", "x\ny", "\xff", "\x0e\x1b\x1f", "ab\ncd", "\n", strings.Repeat("e", 255), strings.Repeat("f", 256),
-			"\x00\x7f", "q\"'\\", string(rune(rng.Intn(0x30))), string([]byte{byte(rng.Intn(256))})}
+			"\x00\x7f", "q\"'\\", string(rune(rng.Intn(0x30))), string([]byte{byte(rng.Intn(256))}),
+			// valid text ending in a truncated multi-byte sequence, astral / BMP runes, format verbs, U+FFFD itself
+			"abc \xc3", "日本語"[:8], "\xf0\x9f\x98", "ok\xe2\x82", "\xc3\xa9\xc3", "€", "\U0001f600", "%d%s%", "\u2028", "\ufffd", "a\xffb"}
 		s := ss[rng.Intn(len(ss))]
 		v.SetString(s)
 		switch t {
